@@ -19,7 +19,6 @@ import (
 	"os"
 	"runtime"
 	"runtime/debug"
-	"runtime/pprof"
 	"sort"
 	"strings"
 	"sync"
@@ -772,11 +771,6 @@ func seq(n int) []int {
 
 func TestCheck(t *testing.T) {
 	r := runner.Start("C10", "exploration")
-	if pf := os.Getenv("C10_CPUPROFILE"); pf != "" {
-		f, _ := os.Create(pf)
-		pprof.StartCPUProfile(f)
-		defer pprof.StopCPUProfile()
-	}
 	deadline := r.Deadline(85*time.Second, 11*time.Minute)
 	debug.SetGCPercent(800) // many short-lived requests, tiny live heap
 
@@ -953,7 +947,6 @@ func TestCheck(t *testing.T) {
 		"route/target of the stored message are compared with the reference resolver; 404/405 must leave the store empty. "+
 		"distinct_nontrivial counts (match shape, observed request value, reference verdict) classes, (route path, request path, verdict) classes and "+
 		"(channel tuple, winner position, status) classes reached by the reference")
-	pprof.StopCPUProfile()
 	r.Assume("encoded slashes (%2F) and other percent-encoded path bytes are not in the alphabet (documentation does not define them)")
 	r.Assume("request methods are upper case; route auth, rate limits and adaptive backpressure are off (C08/C12 cover them), so a resolved request always ends in 202")
 	r.Assume("a pull route stores target \"pull\" (DESIGN.md Admin API example), a deliver route stores its deliver URL")
@@ -1162,11 +1155,12 @@ func replay(r *runner.Run, path string, m *memo) {
 	r.NotExhaustive("replay of one case")
 	r.Set("rule", "replay of one recorded case")
 	if bad {
-		f := finding{Routes: doc.Replay.Routes, Req: doc.Replay.Req, Expect: e, Got: o}
+		f := finding{Routes: doc.Replay.Routes, Config: configDSL(doc.Replay.Routes, 0), Req: doc.Replay.Req, ReqRaw: doc.Replay.Req.raw(),
+			Remote: reqRemotes[doc.Replay.Req.Remote], Expect: e, Got: o, Interp: m.ip}
 		key := doc.Key
 		if c := candidates(doc.Replay.Routes, doc.Replay.Req, m, e, o); len(c) == 1 || key == "" {
 			key = c[0]
 		}
-		r.Violation(key, f.message(), doc.Replay, nil)
+		r.Violation(key, f.message(), f, nil)
 	}
 }
